@@ -6,8 +6,9 @@ TLC side : spec/C10/C10_DMRG.tla - protocol model of DMRG.solve / DMRG.sweep / M
            PosInRange, ReportedIsCurrent, BondCap, EndNormalized for every script of <= 3 sweeps on L <= 5
            (thorough: L <= 6, any rank); six seeded protocol defects and the two known findings are
            configurations that must FAIL.
-S->C     : every complete script TLC enumerates for the smallest constants (L, bsz, solve/manual,
-           per sweep direction/canonize/cap) is replayed on the real DMRG class.
+S->C     : every complete script TLC enumerates for the smallest constants (L, bsz, solve/manual, per sweep
+           direction/canonize/cap, and in solve mode the cut into consecutive solve() calls, each stopping by
+           a huge tolerance or by max_sweeps) is replayed on the real DMRG class.
 C->S     : seeded runs over Hamiltonian families (exact domain: classical energy functions conjugated by
            site-local unitaries, real-symmetric and genuinely complex, d = 2, 3, TLC computes E0 and the
            ground configurations; generic: random Hermitian MPOs, XYZ + fields + DM term, library
@@ -35,6 +36,7 @@ SELFTESTS = (
     ("MC_mut_no_canon.cfg", "CanonAtUpdate", "sweep without the canonization solve() asks for"),
     ("MC_mut_energy_before_update.cfg", "ReportedIsCurrent", "energy taken before the last update"),
     ("MC_mut_skip_last.cfg", "SweepOrder", "sweep range one block short"),
+    ("MC_mut_stale_prev.cfg", "CanonAtUpdate", "previous direction kept across solve() calls but not updated on convergence"),
     ("MC_kf1.cfg", "WiringMatchesApply", "KF-C10-1: ket attached to the operator's upper leg"),
     ("MC_kf2.cfg", "EndNormalizedAnyCap", "KF-C10-2: last split truncates when cap < d, no renormalisation"),
     ("MC_kf3.cfg", "CanonAtUpdateAlways", "KF-C10-3: one-site alternate sweep not canonized after the bond expansion"),
@@ -168,28 +170,38 @@ def run_one(rec, rng, tid, spec):
             rec.arm(dm, ham, Hd, tid, cplx, d, ep0T=m0.emT, solver_seed=int(rng.integers(1 << 30)))
             conv = False
             if spec["mode"] == "solve":
-                conv = dm.solve(tol=spec["tol"], sweep_sequence="".join(seq), max_sweeps=spec["maxsw"])
+                # one or several consecutive solve() calls on the same object (restart histories)
+                calls = spec.get("calls") or [{"seq": "".join(seq), "caps": caps, "cuts": cuts,
+                                               "maxsw": spec["maxsw"], "tol": spec["tol"]}]
+                for ci, call in enumerate(calls):
+                    k0 = rec.cur["k"]
+                    rec.emit({"ev": "solve_start", "c": ci + 1, "seq": list(call["seq"]), "caps": [int(x) for x in call["caps"]],
+                              "cuts12": [qabs(x, 1e-12, cap=2 * 10 ** 9) for x in call["cuts"]],
+                              "maxsw": int(call["maxsw"]), "tol7": qabs(call["tol"], 1e-7), "tconj": False})
+                    conv = dm.solve(tol=call["tol"], bond_dims=[int(x) for x in call["caps"]],
+                                    cutoffs=[float(x) for x in call["cuts"]], sweep_sequence="".join(call["seq"]),
+                                    max_sweeps=int(call["maxsw"]))
+                    rec.emit({"ev": "solve_end", "c": ci + 1, "conv": bool(conv), "nsw": rec.cur["k"] - k0, "tconj": False})
             else:
-                prevd = "0"
                 for k in range(spec["maxsw"]):
                     dr = seq[k % len(seq)]
                     canon = spec["canon"][k] if "canon" in spec else True
                     dm.sweep(dr, canonize=canon, max_bond=caps[min(k, len(caps) - 1)],
                              cutoff=cuts[min(k, len(cuts) - 1)], cutoff_mode=dm.opts["bond_compress_cutoff_mode"],
                              method=dm.opts["bond_compress_method"])
-                    prevd = dr
             rec.disarm()
             psi = dm.state
             m = U.Meas(psi, ham, Hd)
             solve = spec["mode"] == "solve"
             energy = complex(dm.energy) if solve else complex(0)
+            last_end = next((r for r in reversed(rec.recs[recs0:]) if r["ev"] == "sweep_end"), {})
             fin = {"ev": "final", "tid": tid, "cplx": cplx, "bsz": bsz, "conv": bool(conv),
                    "energy": q7(energy.real), "eim": qabs(energy.imag, 1e-7),
                    "energies": [q7(complex(e).real) for e in dm.energies],
                    "ema": q7(m.ema), "emd": q7(m.emd), "n7": q7(m.n),
                    "bonds": [int(b) for b in psi.bond_sizes()], "exc": "",
-                   "lasttrunc": bool(rec.recs[-1].get("lasttrunc", False)),
-                   "capltd": bool(rec.recs[-1].get("capltd", False))}
+                   "lasttrunc": bool(last_end.get("lasttrunc", False)),
+                   "capltd": bool(last_end.get("capltd", False))}
             v = m.v / max(m.n, 1e-300) ** 0.5
             fin["infid7"] = qabs(max(0.0, 1.0 - float(np.sum(np.abs(gs.conj().T @ v) ** 2))), 1e-7)
             infidT = max(0.0, 1.0 - float(np.sum(np.abs(gs.T @ v) ** 2)))      # against conj(ground space)
@@ -286,6 +298,21 @@ def sample_spec(rng, tier, k):
     exact = bool(rng.random() < 0.6)
     shift = bool(rng.random() < 0.3)
     p0cplx = bool(p0 == "random" and rng.random() < 0.35)      # complex state with a real-symmetric operator
+    spec = _base_spec(fam, kind, cplx, L, d, bsz, caps, cuts, seq, thorough, rng, p0, chi0, exact, shift, p0cplx)
+    if rng.random() < 0.4:
+        # restart history: several solve() calls on one object, other sweep sequences, stopping by a (huge)
+        # tolerance or by max_sweeps
+        calls = []
+        for ci in range(int(rng.choice([2, 3]))):
+            calls.append({"seq": str(rng.choice(["R", "L", "RL", "LR", "RRL", "RLL", "LRR", "LRL"])),
+                          "caps": caps if (bsz == 2 or ci == 0) else [max(caps)], "cuts": cuts,
+                          "maxsw": int(rng.choice([1, 2, 3])),
+                          "tol": 1e3 if rng.random() < 0.5 else float(rng.choice([0.0, 1e-6, 1e-4]))})
+        spec["calls"] = calls
+    return spec
+
+
+def _base_spec(fam, kind, cplx, L, d, bsz, caps, cuts, seq, thorough, rng, p0, chi0, exact, shift, p0cplx):
     return {"fam": fam, "kind": kind, "cplx": cplx, "L": L, "d": d, "bsz": bsz, "caps": caps, "cuts": cuts,
             "seq": seq, "maxsw": int(rng.choice([3, 4, 6])) if not thorough else int(rng.choice([3, 5, 8])),
             "tol": float(rng.choice([1e-6, 1e-8, 1e-4])), "p0": p0, "chi0": chi0, "exact": exact,
@@ -293,13 +320,25 @@ def sample_spec(rng, tier, k):
 
 
 def case_to_spec(case, k):
-    """a script enumerated by TLC (MC_cases.cfg) -> a driver spec"""
+    """a script enumerated by TLC (MC_cases.cfg) -> a driver spec.  In solve mode the script is cut into
+    solve() calls at its `newcall` marks; a call with tb (huge tol) stops as soon as two energies exist,
+    a call without (tol = 0) runs its max_sweeps."""
     sc = case["script"]
-    return {"fam": "classical" if k % 2 == 0 else "generic", "kind": ["field", "spin", "table", "randmpo"][k % 4],
+    spec = {"fam": "classical" if k % 2 == 0 else "generic", "kind": ["field", "spin", "table", "randmpo"][k % 4],
             "cplx": bool(k % 3 == 0), "L": int(case["L"]), "d": 2, "bsz": int(case["bsz"]),
             "caps": [int(s["cap"]) for s in sc], "cuts": [1e-10], "seq": "".join(s["dir"] for s in sc),
             "canon": [bool(s["canon"]) for s in sc], "maxsw": len(sc), "tol": 0.0, "p0": "random",
             "chi0": int(case["b0"]), "exact": True, "linop": False, "mode": str(case["mode"])}
+    if spec["mode"] == "solve":
+        calls = []
+        for s in sc:
+            if s["newcall"] or not calls:
+                calls.append({"seq": "", "caps": [], "cuts": [1e-10], "maxsw": 0, "tol": 1e3 if s["tb"] else 0.0})
+            calls[-1]["seq"] += s["dir"]
+            calls[-1]["caps"].append(int(s["cap"]))
+            calls[-1]["maxsw"] += 1
+        spec["calls"] = calls
+    return spec
 
 
 # ----------------------------------------------------------------------------- entry point
@@ -330,8 +369,18 @@ def run(ctx):
     if len(cases) < 50:
         raise MachineryError("could not read the enumerated scripts back (%d)" % len(cases))
     cases.sort(key=lambda c: (c["L"], c["bsz"], c["mode"], str(c["script"])))
+    ctx.extra["enumerated_scripts"] = len(cases)
+    if quick:       # quick: every script (all restart histories of <= 3 sweeps) on the shortest chain
+        # (and, of the histories made of three one-sweep calls, every second one)
+        cases = [c for c in cases if c["L"] == 3]
+        def ncalls(c):
+            return sum(1 for x in c["script"] if x["newcall"])
+
+        cases = [c for i, c in enumerate(cases) if not (ncalls(c) == 3 and i % 2)]
+        # single-call three-sweep scripts are what the sampled runs below do anyway
+        cases = [c for c in cases if not (c["mode"] == "solve" and ncalls(c) == 1 and len(c["script"]) == 3)]
     fails = []
-    with U.Recorder() as rec:
+    with U.Recorder(apply_per_update=False) as rec:
         for k, case in enumerate(cases):
             spec = case_to_spec(case, k)
             n0 = len(rec.recs)
@@ -343,7 +392,7 @@ def run(ctx):
     ctx.extra["replayed_scripts"] = len(cases)
 
     # 3. C->S: seeded runs over families / configurations
-    nruns = 110 if quick else 1400
+    nruns = 100 if quick else 1400
     with U.Recorder() as rec:
         for k in range(nruns):
             spec = sample_spec(rng, ctx.tier, k)
@@ -368,7 +417,7 @@ def run(ctx):
     for n in notes[:10]:
         ctx.notes.append("%s at tid=%s ev=%s" % (n["clause"], n["record"].get("tid"), n["record"].get("ev")))
     ctx.extra["notes_count"] = len(notes)
-    ctx.clauses.update(["Returns", "InputIsHermitian", "ConventionPinned", "OracleAgrees", "ScheduleFollowed", "SweepOrder",
+    ctx.clauses.update(["Returns", "InputIsHermitian", "ConventionPinned", "OracleAgrees", "ScheduleFollowed", "CanonizedWhenNeeded", "SweepOrder",
                         "SweepComplete", "NoStaleEnv", "TotalEnergyIsExpectation", "ReportedEqualsMeasured", "RoutesAgree",
                         "Variational", "Monotone", "BondCap", "FullRankKeepsNorm", "Normalized", "EnergyIsLastUpdate",
                         "EnergiesAreSweepEnds", "StopsWhenConverged", "ConvergedExact", "TraceWellFormed",
